@@ -52,3 +52,4 @@ R('order_axioms', 'h_order_axioms', None, cost=5)
 R('next_poll', 'h_next_poll', None, unwind=10, cost=10)
 R('push_remove', 'h_push_remove', None, unwind=10, cost=10)
 R('priority', 'h_priority', None, unwind=10, cost=10)
+R('add_poll', 'h_add_poll', None, unwind=10, cost=10)
